@@ -68,4 +68,6 @@ def panel (f : Feat) : Panel :=
     prog := prog f,
     ctrl := .uc (Uc.por WIDTH HEIGHT 1 9 true) }
 
+attribute [driver_simp] W setLut init updateFrame windowHeader prog
+
 end EpdVerif.Drivers.Epd2in7
